@@ -10,8 +10,8 @@ from ..tfl import read
 
 EXACT = {"CONV_2D", "DEPTHWISE_CONV_2D", "FULLY_CONNECTED", "MAX_POOL_2D", "RELU", "RELU6", "RELU_N1_TO_1", "ADD", "SUB", "MUL", "MINIMUM", "MAXIMUM",
          "QUANTIZE", "RESHAPE", "CONCATENATION", "SPLIT", "STRIDED_SLICE", "SLICE", "PAD", "SQUEEZE", "EXPAND_DIMS", "DEPTH_TO_SPACE", "NEG", "CUSTOM",
-         "LEAKY_RELU", "ABS", "TRANSPOSE"}
-APPROX = {"AVERAGE_POOL_2D", "RESIZE_NEAREST_NEIGHBOR", "RESIZE_BILINEAR", "LOGISTIC", "TANH", "HARD_SWISH", "MEAN", "SOFTMAX"}
+         "LEAKY_RELU", "ABS", "TRANSPOSE", "RESIZE_NEAREST_NEIGHBOR"}
+APPROX = {"AVERAGE_POOL_2D", "RESIZE_BILINEAR", "LOGISTIC", "TANH", "HARD_SWISH", "MEAN", "SOFTMAX"}
 # LEAKY_RELU is implemented by Vela with the reference's own integer arithmetic; counted exact
 
 RANGE = {"int8": (-128, 127), "uint8": (0, 255), "int16": (-32768, 32767), "int32": (-(1 << 31), (1 << 31) - 1)}
